@@ -491,6 +491,15 @@ package mcap
     spec chunkRoom(w) = w.opts.Chunked && !w.closed ==> w.compressedWriter.size < 4611686018427387904
 @*/
 
+/*@ spec chunkTimeInv(w) = w.currentChunkMessageCount == 0 ==> w.currentChunkStartTime == 18446744073709551615 && w.currentChunkEndTime == 0
+    spec idxKeyed(w) = forall(k, 0, 65536, in(w.messageIndexes, k) ==> w.messageIndexes[k].ChannelID == k)
+    spec lastChunk(w) = w.ChunkIndexes[len(w.ChunkIndexes)-1]
+    spec lastMeta(w) = w.MetadataIndexes[len(w.MetadataIndexes)-1]
+    spec groupRank(op) = ite(op == 3, 1, ite(op == 4, 2, ite(op == 11, 3, ite(op == 8, 4, ite(op == 10, 5, ite(op == 13, 6, 0))))))
+    spec groupsContiguous(offs, endpos) = forall(k, 0, len(offs), wrap64(offs[k].GroupStart + offs[k].GroupLength) == ite(k + 1 < len(offs), offs[k+1].GroupStart, endpos))
+    spec groupsOrdered(offs) = forall(k, 0, len(offs), groupRank(offs[k].GroupOpcode) > 0) && forall(k, 0, len(offs) - 1, groupRank(offs[k].GroupOpcode) < groupRank(offs[k+1].GroupOpcode))
+@*/
+
 /*@ spec wfMsgIndex(idx) = idx != nil && 0 <= idx.currentIndex && idx.currentIndex <= len(idx.Records)
     spec wfWriter(w) = w != nil && w.opts != nil && wfSizer(w.w) && w.Statistics != nil && len(w.buf) >= 9
         && w.channels != nil && w.schemas != nil && w.messageIndexes != nil && w.Statistics.ChannelMessageCounts != nil
@@ -513,6 +522,8 @@ package mcap
     requires wfMsgIndex(idx)
     touches idx
     ensures wfMsgIndex(idx)
+    ensures [entry-recorded] {C05} idx.currentIndex == old(idx.currentIndex) + 1 && idx.ChannelID == old(idx.ChannelID)
+        && idx.Records[old(idx.currentIndex)].Timestamp == timestamp && idx.Records[old(idx.currentIndex)].Offset == offset
 @*/
 /*@ func (*MessageIndex).Entries
     safety C14
@@ -580,6 +591,7 @@ package mcap
     requires [crc-inv] {C06} crcInv(w)
     ensures [crc-inv] {C06} crcInv(w)
     ensures [file-crc-range-kept] {C06} fileCrcKept(w, old(w.w.crc.crc), old(crcFrom(w)))
+    call writeRecord#1 assert [summary-offset-record-fields] {C05} len(arg2) == 17 && arg2[0] == uint8(s.GroupOpcode) && le64at(arg2, 1) == s.GroupStart && le64at(arg2, 9) == s.GroupLength
 @*/
 
 /*@ func (*Writer).WriteMetadataIndex
@@ -592,6 +604,7 @@ package mcap
     requires [crc-inv] {C06} crcInv(w)
     ensures [crc-inv] {C06} crcInv(w)
     ensures [file-crc-range-kept] {C06} fileCrcKept(w, old(w.w.crc.crc), old(crcFrom(w)))
+    call writeRecord#1 assert [metadata-index-record-fields] {C05} len(arg2) == 20 + len(idx.Name) && le64at(arg2, 0) == idx.Offset && le64at(arg2, 8) == idx.Length && le32at(arg2, 16) == uint32(len(idx.Name))
 @*/
 
 /*@ func (*Writer).WriteAttachmentIndex
@@ -604,6 +617,9 @@ package mcap
     requires [crc-inv] {C06} crcInv(w)
     ensures [crc-inv] {C06} crcInv(w)
     ensures [file-crc-range-kept] {C06} fileCrcKept(w, old(w.w.crc.crc), old(crcFrom(w)))
+    call writeRecord#1 assert [attachment-index-record-fields] {C05} len(arg2) == 48 + len(idx.Name) + len(idx.MediaType) && le64at(arg2, 0) == idx.Offset && le64at(arg2, 8) == idx.Length
+        && le64at(arg2, 16) == idx.LogTime && le64at(arg2, 24) == idx.CreateTime && le64at(arg2, 32) == idx.DataSize
+        && le32at(arg2, 40) == uint32(len(idx.Name)) && le32at(arg2, 44 + len(idx.Name)) == uint32(len(idx.MediaType))
 @*/
 
 /*@ func (*countingCRCWriter).Size
@@ -670,6 +686,7 @@ package mcap
     ensures [schema-others] {C08} w.Statistics == old(w.Statistics) && w.Statistics.ChannelCount == old(w.Statistics.ChannelCount) && w.Statistics.MessageCount == old(w.Statistics.MessageCount) && w.Statistics.ChunkCount == old(w.Statistics.ChunkCount) && w.Statistics.MetadataCount == old(w.Statistics.MetadataCount) && w.Statistics.AttachmentCount == old(w.Statistics.AttachmentCount)
     requires [crc-inv] {C06} crcInv(w)
     ensures [crc-inv] {C06} crcInv(w)
+    ensures [index-keys] {C05} old(idxKeyed(w)) ==> idxKeyed(w)
 @*/
 /*@ func (*Writer).AddChannel
     safety C14
@@ -683,6 +700,7 @@ package mcap
     ensures [channel-others] {C08} w.Statistics == old(w.Statistics) && w.Statistics.SchemaCount == old(w.Statistics.SchemaCount) && w.Statistics.MessageCount == old(w.Statistics.MessageCount) && w.Statistics.ChunkCount == old(w.Statistics.ChunkCount) && w.Statistics.MetadataCount == old(w.Statistics.MetadataCount) && w.Statistics.AttachmentCount == old(w.Statistics.AttachmentCount)
     requires [crc-inv] {C06} crcInv(w)
     ensures [crc-inv] {C06} crcInv(w)
+    ensures [index-keys] {C05} old(idxKeyed(w)) ==> idxKeyed(w)
 @*/
 
 /*@ func (*Writer).WriteSchema
@@ -700,6 +718,7 @@ package mcap
     ensures [crc-inv] {C06} crcInv(w)
     ensures [file-crc-range-kept] {C06} fileCrcKept(w, old(w.w.crc.crc), old(crcFrom(w)))
     requires [chunk-below-2^62-bytes] {C06} chunkRoom(w)
+    ensures [index-keys] {C05} old(idxKeyed(w)) ==> idxKeyed(w)
 @*/
 
 /*@ func (*Writer).WriteChannel
@@ -717,12 +736,14 @@ package mcap
     ensures [crc-inv] {C06} crcInv(w)
     ensures [file-crc-range-kept] {C06} fileCrcKept(w, old(w.w.crc.crc), old(crcFrom(w)))
     requires [chunk-below-2^62-bytes] {C06} chunkRoom(w)
+    ensures [index-keys] {C05} old(idxKeyed(w)) ==> idxKeyed(w)
 @*/
 
 /*@ func (*Writer).WriteMessageIndex
     tags C14
     safety C14
     requires wfWriter(w) && wfMsgIndex(idx) && okSink(w)
+    touches w, w.w
     writesto sink(w), hash fileHash(w)
     ensures wfWriter(w) && sink(w) == old(sink(w))
     ensures failed(sink(w)) ==> r0 != nil
@@ -730,6 +751,7 @@ package mcap
     requires [crc-inv] {C06} crcInv(w)
     ensures [crc-inv] {C06} crcInv(w)
     ensures [file-crc-range-kept] {C06} fileCrcKept(w, old(w.w.crc.crc), old(crcFrom(w)))
+    call writeRecord#1 assert [message-index-record-header] {C05} len(arg2) == 6 + 16 * idx.currentIndex
 @*/
 
 /*@ func (*Writer).WriteStatistics
@@ -742,6 +764,12 @@ package mcap
     requires [crc-inv] {C06} crcInv(w)
     ensures [crc-inv] {C06} crcInv(w)
     ensures [file-crc-range-kept] {C06} fileCrcKept(w, old(w.w.crc.crc), old(crcFrom(w)))
+    loop 2 invariant [fixed-fields-kept] {C05 C08} offset >= 46 && le64at(w.msg, 0) == s.MessageCount && le16at(w.msg, 8) == s.SchemaCount && le32at(w.msg, 10) == s.ChannelCount
+        && le32at(w.msg, 14) == s.AttachmentCount && le32at(w.msg, 18) == s.MetadataCount && le32at(w.msg, 22) == s.ChunkCount
+        && le64at(w.msg, 26) == s.MessageStartTime && le64at(w.msg, 34) == s.MessageEndTime
+    call writeRecord#1 assert [statistics-record-fields] {C05 C08} len(arg2) >= 46 && le64at(arg2, 0) == s.MessageCount && le16at(arg2, 8) == s.SchemaCount && le32at(arg2, 10) == s.ChannelCount
+        && le32at(arg2, 14) == s.AttachmentCount && le32at(arg2, 18) == s.MetadataCount && le32at(arg2, 22) == s.ChunkCount
+        && le64at(arg2, 26) == s.MessageStartTime && le64at(arg2, 34) == s.MessageEndTime
 @*/
 
 /*@ func (*Writer).WriteMetadata
@@ -756,6 +784,8 @@ package mcap
     requires [crc-inv] {C06} crcInv(w)
     ensures [crc-inv] {C06} crcInv(w)
     ensures [file-crc-range-kept] {C06} fileCrcKept(w, old(w.w.crc.crc), old(crcFrom(w)))
+    ensures [metadata-index-entry] {C05} r0 == nil ==> lastMeta(w).Offset == old(w.w.size) && lastMeta(w).Length == wrap64(w.w.size - old(w.w.size)) && lastMeta(w).Name == m.Name
+    call writeRecord#1 assert [metadata-record-length] {C05} len(arg2) == offset
 @*/
 
 /*@ func (*Writer).WriteChunkIndex
@@ -768,6 +798,12 @@ package mcap
     requires [crc-inv] {C06} crcInv(w)
     ensures [crc-inv] {C06} crcInv(w)
     ensures [file-crc-range-kept] {C06} fileCrcKept(w, old(w.w.crc.crc), old(crcFrom(w)))
+    loop 1 invariant [fixed-fields-kept] {C05} offset >= 36 && le64at(w.msg, 0) == idx.MessageStartTime && le64at(w.msg, 8) == idx.MessageEndTime
+        && le64at(w.msg, 16) == idx.ChunkStartOffset && le64at(w.msg, 24) == idx.ChunkLength
+    call writeRecord#1 assert [chunk-index-record-fields] {C05} le64at(arg2, 0) == idx.MessageStartTime && le64at(arg2, 8) == idx.MessageEndTime
+        && le64at(arg2, 16) == idx.ChunkStartOffset && le64at(arg2, 24) == idx.ChunkLength
+        && le64at(arg2, len(arg2) - 16) == idx.CompressedSize && le64at(arg2, len(arg2) - 8) == idx.UncompressedSize
+        && le64at(arg2, len(arg2) - 28 - len(idx.Compression)) == idx.MessageIndexLength
 @*/
 
 /*@ func (*Writer).WriteChunkWithIndexes
@@ -788,6 +824,7 @@ package mcap
     safety C14
     requires wfWriter(w) && c != nil && okSink(w)
     requires forall(k, 0, len(messageIndexes), wfMsgIndex(messageIndexes[k]))
+    touches w, w.w, w.Statistics
     writesto sink(w), hash fileHash(w)
     ensures wfWriter(w) && sink(w) == old(sink(w)) && w.opts == old(w.opts)
     ensures failed(sink(w)) ==> r0 != nil
@@ -810,6 +847,15 @@ package mcap
         && le32at(arg0, 33) == c.UncompressedCRC && le32at(arg0, 37) == uint32(len(c.Compression)) && le64at(arg0, 41 + len(c.Compression)) == len(c.Records)
     call Write#2 assert [chunk-records-follow-header] {C05} slid(arg0) == slid(c.Records)
     loop 1 invariant [crc-state-kept] {C06} crcInv(w) && fileCrcKept(w, old(w.w.crc.crc), old(crcFrom(w)))
+    ensures [chunk-index-location] {C05} r0 == nil && c.UncompressedSize > 0 ==> lastChunk(w).ChunkStartOffset == old(w.w.size)
+        && lastChunk(w).ChunkLength == wrap64(49 + len(c.Compression) + len(c.Records))
+    ensures [chunk-index-fields] {C05} r0 == nil && c.UncompressedSize > 0 ==> lastChunk(w).CompressedSize == len(c.Records) && lastChunk(w).UncompressedSize == c.UncompressedSize
+        && lastChunk(w).MessageStartTime == c.MessageStartTime && lastChunk(w).MessageEndTime == c.MessageEndTime && lastChunk(w).Compression == c.Compression
+    ensures [message-index-length-is-bytes-after-chunk] {C05} r0 == nil && c.UncompressedSize > 0 ==> w.w.size == wrap64(old(w.w.size) + lastChunk(w).ChunkLength + lastChunk(w).MessageIndexLength)
+    ensures [empty-chunk-writes-nothing] {C05} c.UncompressedSize == 0 ==> r0 == nil && w.w.size == old(w.w.size) && len(w.ChunkIndexes) == old(len(w.ChunkIndexes))
+    loop 1 backedge [message-index-offset-is-record-start] {C05} messageIndex.currentIndex != 0 ==> in(messageIndexOffsets, messageIndex.ChannelID) && messageIndexOffsets[messageIndex.ChannelID] == athead(w.w.size)
+    loop 1 backedge [empty-message-index-not-written] {C05} messageIndex.currentIndex == 0 ==> w.w.size == athead(w.w.size)
+    ensures [index-keys] {C05} old(idxKeyed(w)) ==> idxKeyed(w)
 @*/
 
 /*@ func (*Writer).flushActiveChunk
@@ -834,6 +880,17 @@ package mcap
     call writeChunkWithIndexes#1 assert [chunk-size-is-uncompressed-bytes] {C05 C06} arg0.UncompressedSize == old(w.compressedWriter.size)
     loop 1 invariant [crc-state-kept] {C06} fileCrcKept(w, old(w.w.crc.crc), old(crcFrom(w))) && crcCfg(w)
     loop 2 invariant [crc-state-kept] {C06} crcInv(w) && fileCrcKept(w, old(w.w.crc.crc), old(crcFrom(w)))
+    requires [chunk-time-inv] {C05} chunkTimeInv(w)
+    ensures [chunk-state-reset] {C05} r0 == nil && old(w.compressedWriter.size) != 0 ==> chunkTimeInv(w) && w.currentChunkMessageCount == 0 && w.compressedWriter.size == 0
+    ensures [chunk-time-inv] {C05} r0 == nil ==> chunkTimeInv(w)
+    ensures [index-keys] {C05} old(idxKeyed(w)) ==> idxKeyed(w)
+    ensures [chunk-index-describes-the-flushed-chunk] {C05} r0 == nil && old(w.compressedWriter.size) != 0 ==> len(w.ChunkIndexes) == old(len(w.ChunkIndexes)) + 1
+        && lastChunk(w).UncompressedSize == old(w.compressedWriter.size) && lastChunk(w).ChunkStartOffset == old(w.w.size)
+        && lastChunk(w).MessageStartTime == ite(old(w.currentChunkMessageCount) != 0, old(w.currentChunkStartTime), 0)
+        && lastChunk(w).MessageEndTime == ite(old(w.currentChunkMessageCount) != 0, old(w.currentChunkEndTime), 0)
+    ensures [nothing-buffered-nothing-written] {C05} old(w.compressedWriter.size) == 0 ==> r0 == nil && w.w.size == old(w.w.size) && len(w.ChunkIndexes) == old(len(w.ChunkIndexes))
+    call writeChunkWithIndexes#1 assert [chunk-times-are-the-chunk's-message-range] {C05} arg0.MessageStartTime == ite(old(w.currentChunkMessageCount) != 0, old(w.currentChunkStartTime), 0)
+        && arg0.MessageEndTime == ite(old(w.currentChunkMessageCount) != 0, old(w.currentChunkEndTime), 0)
 @*/
 
 /*@ func (*Writer).WriteMessage
@@ -856,6 +913,18 @@ package mcap
     ensures [crc-inv] {C06} crcInv(w)
     ensures [file-crc-range-kept] {C06} fileCrcKept(w, old(w.w.crc.crc), old(crcFrom(w)))
     requires [chunk-below-2^62-bytes] {C06} chunkRoom(w)
+    requires [chunk-time-inv] {C05} chunkTimeInv(w) && idxKeyed(w) && w.currentChunkMessageCount < 18446744073709551615
+    ensures [index-keys] {C05} idxKeyed(w)
+    ensures [chunk-time-inv] {C05} r0 == nil ==> chunkTimeInv(w)
+    ensures [chunk-range-tracks-message] {C05} r0 == nil && w.opts.Chunked && !old(w.closed) && len(w.ChunkIndexes) == old(len(w.ChunkIndexes)) ==>
+        w.currentChunkMessageCount == wrap64(old(w.currentChunkMessageCount) + 1)
+        && w.currentChunkStartTime == umin(old(w.currentChunkStartTime), m.LogTime) && w.currentChunkEndTime == umax(old(w.currentChunkEndTime), m.LogTime)
+    ensures [flushed-chunk-range-includes-message] {C05} r0 == nil && w.opts.Chunked && !old(w.closed) && len(w.ChunkIndexes) != old(len(w.ChunkIndexes)) && old(w.currentChunkMessageCount) < 18446744073709551615 ==>
+        len(w.ChunkIndexes) == old(len(w.ChunkIndexes)) + 1
+        && lastChunk(w).MessageStartTime == umin(old(w.currentChunkStartTime), m.LogTime) && lastChunk(w).MessageEndTime == umax(old(w.currentChunkEndTime), m.LogTime)
+    call writeRecord#1 assert [message-index-entry-points-at-the-record] {C05} w.messageIndexes[m.ChannelID] == idx && idx.ChannelID == m.ChannelID && idx.currentIndex >= 1
+        && idx.Records[idx.currentIndex-1].Timestamp == m.LogTime && idx.Records[idx.currentIndex-1].Offset == w.compressedWriter.size
+    call flushActiveChunk#1 assert [index-keys-before-flush] {C05} idxKeyed(w)
 @*/
 
 /*@ func newCRCWriter
@@ -918,6 +987,8 @@ package mcap
     loop 3 invariant [crc-state-kept] {C06} crcInv(w) && fileCrcKept(w, old(w.w.crc.crc), old(crcFrom(w)))
     loop 4 invariant [crc-state-kept] {C06} crcInv(w) && fileCrcKept(w, old(w.w.crc.crc), old(crcFrom(w)))
     loop 5 invariant [crc-state-kept] {C06} crcInv(w) && fileCrcKept(w, old(w.w.crc.crc), old(crcFrom(w)))
+    ensures [summary-groups-contiguous] {C05} r1 == nil ==> groupsContiguous(r0, w.w.size) && (len(r0) > 0 ==> r0[0].GroupStart == old(w.w.size)) && (len(r0) == 0 ==> w.w.size == old(w.w.size))
+    ensures [summary-groups-in-fixed-order] {C05} r1 == nil ==> groupsOrdered(r0)
 @*/
 
 /*@ func (*Writer).Close
@@ -933,6 +1004,11 @@ package mcap
     call writeSummarySection#1 label S
     call WriteFooter#1 assert [summary-crc-covers-from-summary-start] {C06} w.opts.IncludeCRC ==> crcFrom(w) == at(S, offered(sink(w)))
     loop 1 invariant [crc-state-kept] {C06} crcInv(w) && (w.opts.IncludeCRC ==> w.w.crc.crc == at(S, w.w.crc.crc) && crcFrom(w) == at(S, offered(sink(w))))
+    call writeSummarySection#1 assert [data-end-closes-data-section] {C05} w.closed
+    call WriteFooter#1 assert [footer-summary-start] {C05} arg0.SummaryStart == ite(len(summaryOffsets) == 0, 0, at(S, w.w.size))
+    call WriteFooter#1 assert [footer-summary-offset-start] {C05} arg0.SummaryOffsetStart == ite(w.opts.SkipSummaryOffsets || len(summaryOffsets) == 0, 0, summaryOffsetStart)
+        && (!w.opts.SkipSummaryOffsets && len(summaryOffsets) > 0 ==> groupsContiguous(summaryOffsets, summaryOffsetStart))
+    requires [chunk-time-inv] {C05} chunkTimeInv(w)
 @*/
 
 /*@ func NewWriter
@@ -943,6 +1019,7 @@ package mcap
     ensures failed(w) ==> r1 != nil
     ensures [crc-inv] {C06} r1 == nil ==> crcInv(r0)
     ensures [file-crc-covers-from-first-byte] {C06} r1 == nil && opts.IncludeCRC ==> crcFrom(r0) == old(offered(w))
+    ensures [chunk-time-inv] {C05} r1 == nil ==> chunkTimeInv(r0) && idxKeyed(r0) && r0.w.size == ite(opts.SkipMagic, 0, 8) && (opts.Chunked ==> r0.compressedWriter.size == 0)
 @*/
 
 // ---------------------------------------------------------------------------------------------
